@@ -410,6 +410,10 @@ fn aggregate_output_text_from_events(events: &[Event]) -> String {
     out
 }
 
+#[cfg(kani)]
+#[path = "/verif/harness/ripd/context_compiler.rs"]
+mod verif_kani;
+
 #[cfg(test)]
 mod tests {
     use super::*;
